@@ -86,6 +86,7 @@ static void run_pair(void) {
   else if (t1 == mjGEOM_SPHERE && t2 == mjGEOM_SPHERE) f = mjc_SphereSphere;
   else if (t1 == mjGEOM_SPHERE && t2 == mjGEOM_CAPSULE) f = mjc_SphereCapsule;
   else if (t1 == mjGEOM_CAPSULE && t2 == mjGEOM_CAPSULE) f = mjc_CapsuleCapsule;
+  else if (t1 == mjGEOM_PLANE && t2 == mjGEOM_CYLINDER) f = mjc_PlaneCylinder;
   if (!f || mjCOLLISIONFUNC[t1][t2] != f) { printf("ERR\n"); return; }   // the table entry must be this function
   mjPreContact con[mjMAXCONPAIR];
   memset(con, 0, sizeof(con));
